@@ -358,6 +358,14 @@ def parse_skool(text):
     return res
 
 
+RST8_RE = re.compile(r'RST (8|\$08|\$8)', re.I)
+
+
+def mem_at(case, a):
+    i = a - case['org']
+    return case['data'][i] if 0 <= i < len(case['data']) else 0
+
+
 def effective_range(case):
     if case.get('is_snapshot'):
         return (case['start'] if case['start'] is not None else 16384), (case['end'] if case['end'] is not None else 65536)
@@ -413,6 +421,11 @@ def run_case(mods, case, scratch, with_skool=True, cause=None):
     if exc:
         if exc[0] == 'timeout':
             fails.append((f'{path}:no-termination', f'sna2ctl {args} did not finish within the time limit'))
+        elif exc[0] == 'CodeMapError' and case.get('map'):
+            # every map this harness writes with at least one address is a well-formed file of its
+            # format holding addresses 0..65535 only: rejecting it means no control file for a valid input
+            fails.append(('map:valid-code-map-rejected', f'sna2ctl {args} rejected a well-formed {case["map_fmt"]} map '
+                          f'({len(case["map"])} addresses, min {min(case["map"])}, max {max(case["map"])}): {exc[1][-120:]}'))
         elif exc[0] in ('CodeMapError', 'SkoolKitError'):
             info['rejected'] = exc[1]       # input rejected with a proper error message: nothing is claimed
         else:
@@ -486,6 +499,12 @@ def run_case(mods, case, scratch, with_skool=True, cause=None):
             x, y = int(m.group(1)), int(m.group(2))
             if y == end:
                 info['end_overlap'] = True
+                if ('-r' in case.get('opts', ()) and x not in addrs and x - 1 in iaddrs and RST8_RE.fullmatch(iaddrs[x - 1])
+                        and mem_at(case, x - 1) == 0xCF):
+                    # not inherent: X is the argument byte of the RST 8 at X-1 in the same block (default RSTHandlerConfig
+                    # 8:B), which sna2ctl -r must mark as data ('B X,1') when it lies inside the range; sna2skool decoded it as code
+                    fails.append((f'{path}:overlap-warning:rst-argument-at-end-decoded-as-code',
+                                  f'sna2skool on the generated ctl: {w} (the byte at {x} is the argument of the RST 8 at {x - 1})'))
                 continue          # the image's own last instruction straddles END: inherent, see assumptions
             why = cause(x, y, info) if cause else 'unclassified'
             fails.append((f'{path}:overlap-warning:{why}', f'sna2skool on the generated ctl: {w}'))
